@@ -2,7 +2,7 @@
    the EVM specification (EVM/Step.v, EVM/Interp.v): gas never increases and every
    continuing step costs at least 1, the operand stack obeys the stack table, memory
    is well-formed and paid for, memory and stack accesses never fail, fuel suffices. *)
-From GV Require Import Lib.Tactics Lib.Bytes Keccak.Sponge EVM.Jumpdest EVM.Word256 EVM.Memory EVM.MemoryProofs.
+From GV Require Import Lib.Tactics Lib.Bytes EVM.Jumpdest EVM.Word256 EVM.Memory EVM.MemoryProofs.
 From GV Require Import EVM.Gas EVM.State EVM.Instr EVM.Step EVM.Interp.
 Local Open Scope N_scope.
 
@@ -447,8 +447,8 @@ Proof.
   - rewrite Hreq in Hex. simpl in Hex. destruct Hex as (Hl & Hw' & Hg & Hm).
     unfold frame_inv. unfold stack_limit in *.
     destruct (const_gas i =? 0) eqn:E0.
-    + apply N.eqb_eq in E0. repeat split; auto; lia.
-    + apply N.eqb_neq in E0. repeat split; auto; lia.
+    + apply N.eqb_eq in E0. repeat match goal with |- _ /\ _ => split end; auto; lia.
+    + apply N.eqb_neq in E0. repeat match goal with |- _ /\ _ => split end; auto; lia.
   - destruct Hex. split; auto. lia.
 Qed.
 
@@ -479,7 +479,7 @@ Proof.
   - simpl in H. destruct (iter_pow k f s) as [s1|r1] eqn:E1.
     + destruct (iter_pow_inl k _ _ Hp E1) as [Hp1 Hm1].
       destruct (IH _ _ Hp1 H) as (s0 & A & B & C). exists s0. repeat split; auto.
-      assert (0 < 2 ^ N.of_nat k) by (apply N.pow_pos_nonneg; lia). lia.
+      assert (2 ^ N.of_nat k <> 0) by (apply N.pow_nonzero; discriminate). lia.
     + inversion H; subst. apply (IH _ _ Hp E1).
 Qed.
 
@@ -589,3 +589,102 @@ Proof.
   destruct H as [Hg He]. simpl. split; auto.
   destruct (xr_err _); simpl in *; auto.
 Qed.
+
+(* ------------------------------------------------------------------ *)
+(* the statements used by Properties/C27.v *)
+
+Lemma okst_not_fuel s : okst s -> s <> S_Fault F_OutOfFuel.
+Proof. intros H E; subst; exact H. Qed.
+
+Lemma okst_faults s : okst s -> forall k, s = S_Fault k -> k = F_RefundUnderflow.
+Proof. intros H k E; subst. destruct k; simpl in H; try contradiction; reflexivity. Qed.
+
+Lemma run_total_call e w pcs to value input gas :
+  t_status (top_call e w pcs to value input gas) <> S_Fault F_OutOfFuel.
+Proof. apply okst_not_fuel, top_call_good. Qed.
+
+Lemma run_total_create e w pcs value init gas :
+  t_status (top_create e w pcs value init gas) <> S_Fault F_OutOfFuel.
+Proof. apply okst_not_fuel, top_create_good. Qed.
+
+Lemma run_total_frame d c w gas :
+  (1 <= d)%nat -> 1026 <= c_depth c + N.of_nat d ->
+  r_status (run d c w gas) <> S_Fault F_OutOfFuel.
+Proof. intros H1 H2. apply okst_not_fuel, run_good; assumption. Qed.
+
+Lemma gas_never_exceeds_call e w pcs to value input gas :
+  let r := top_call e w pcs to value input gas in
+  t_gas r <= gas /\ exists used, used + t_gas r = gas.
+Proof.
+  cbv zeta. destruct (top_call_good e w pcs to value input gas) as [H _].
+  split; auto. exists (gas - t_gas (top_call e w pcs to value input gas)). lia.
+Qed.
+
+Lemma gas_never_exceeds_create e w pcs value init gas :
+  let r := top_create e w pcs value init gas in
+  t_gas r <= gas /\ exists used, used + t_gas r = gas.
+Proof.
+  cbv zeta. destruct (top_create_good e w pcs value init gas) as [H _].
+  split; auto. exists (gas - t_gas (top_create e w pcs value init gas)). lia.
+Qed.
+
+Lemma gas_never_exceeds_frame d c w gas :
+  (1 <= d)%nat -> 1026 <= c_depth c + N.of_nat d ->
+  r_gas (run d c w gas) <= gas /\
+  forall f, reachable (step (run (pred d)) c) (init_frame w gas) f -> f_gas f <= gas.
+Proof.
+  intros H1 H2. split; [apply run_good; assumption|].
+  intros f Hr. destruct d; [lia|]. simpl in Hr.
+  apply (reachable_frame_inv d c w gas f H2 Hr).
+Qed.
+
+Lemma stack_bounded d c w gas f :
+  1026 <= c_depth c + N.of_nat (S d) ->
+  reachable (step (run d) c) (init_frame w gas) f ->
+  (length (f_stack f) <= 1024)%nat.
+Proof. intros H Hr. apply (reachable_frame_inv d c w gas f H Hr). Qed.
+
+Lemma memory_paid d c w gas f :
+  1026 <= c_depth c + N.of_nat (S d) ->
+  reachable (step (run d) c) (init_frame w gas) f ->
+  mem_len (f_mem f) mod 32 = 0 /\
+  m_last (f_mem f) = mem_fee (mem_len (f_mem f) / 32) /\
+  f_gas f + m_last (f_mem f) <= gas.
+Proof.
+  intros H Hr. destruct (reachable_frame_inv d c w gas f H Hr) as [[_ [A B]] _].
+  repeat split; auto. apply (reachable_mem_paid d c w gas f H Hr).
+Qed.
+
+(* the accessors fail exactly on an access beyond the paid-for size *)
+Lemma mem_read_none m off size :
+  mem_read m off size = None <-> size <> 0 /\ mem_len m < off + size.
+Proof.
+  unfold mem_read. destruct (size =? 0) eqn:E.
+  - apply N.eqb_eq in E. split; [discriminate|intros [A _]; contradiction].
+  - apply N.eqb_neq in E. destruct (off + size <=? mem_len m) eqn:E2.
+    + apply N.leb_le in E2. split; [discriminate|intros [_ B]; lia].
+    + apply N.leb_gt in E2. split; auto.
+Qed.
+
+Lemma mem_write_none m off size v :
+  mem_write m off size v = None <-> size <> 0 /\ mem_len m < off + size.
+Proof.
+  unfold mem_write. destruct (size =? 0) eqn:E.
+  - apply N.eqb_eq in E. split; [discriminate|intros [A _]; contradiction].
+  - apply N.eqb_neq in E. destruct (off + size <=? mem_len m) eqn:E2.
+    + apply N.leb_le in E2. split; [discriminate|intros [_ B]; lia].
+    + apply N.leb_gt in E2. split; auto.
+Qed.
+
+Lemma no_exception_value_call e w pcs to value input gas k :
+  t_status (top_call e w pcs to value input gas) = S_Fault k -> k = F_RefundUnderflow.
+Proof. apply okst_faults, top_call_good. Qed.
+
+Lemma no_exception_value_create e w pcs value init gas k :
+  t_status (top_create e w pcs value init gas) = S_Fault k -> k = F_RefundUnderflow.
+Proof. apply okst_faults, top_create_good. Qed.
+
+Lemma no_exception_value_frame d c w gas k :
+  (1 <= d)%nat -> 1026 <= c_depth c + N.of_nat d ->
+  r_status (run d c w gas) = S_Fault k -> k = F_RefundUnderflow.
+Proof. intros H1 H2. apply okst_faults, run_good; assumption. Qed.
